@@ -24,18 +24,20 @@ echo "tests: $tests_line | demo with change: exit $demo_mut | demo pristine: exi
 mkdir -p $dst
 cp "$out/m$n.diff" $dst/patch.diff; cp "$out/demo$n.py" $dst/demo.py
 res="{}"
-git -C /repo apply "$out/m$n.diff" || { echo "patch does not apply to /repo"; exit 2; }
+# While other work reads /repo concurrently, the change is applied to the scratch worktree and the checks are pointed
+# at it with VERIF_REPO (same effect as `git -C /repo apply` + `git -C /repo checkout -- .`, without disturbing /repo).
+git -C $wt apply "$out/m$n.diff" || { echo "patch does not apply"; exit 2; }
 declare -A rc
 log=""
 for c in $checks; do
-  o=$(cd /verif && timeout 1800 ./check $c quick 2>&1 | grep -v "^WARNING conda" | tail -6)
+  o=$(cd /verif && VERIF_REPO=$wt timeout 1800 ./check $c quick 2>&1 | grep -v "^WARNING conda" | tail -6)
   r=$(echo "$o" | grep -c "^VIOLATION")
   echo "--- check $c: $r VIOLATION line(s)"; echo "$o" | tail -4
   log="$log\n[$c] $o"
   rc[$c]=$r
 done
-git -C /repo checkout -- .
-git -C /repo status --short | head -3
+git -C $wt checkout -q -- src nextflow
+mkdir -p $dst/replays; for f in $(printf "$log" | grep -o "replay=[^ ]*" | cut -d= -f2 | head -3); do cp "$f" $dst/replays/ 2>/dev/null; done
 /venv/bin/python - "$out/meta$n.json" "$dst/meta.json" "$tests_line" "$demo_mut" "$demo_clean" "$checks" "$(printf "$log")" <<'PY'
 import json, sys
 src, dst, tests, dm, dc, checks, log = sys.argv[1:8]
@@ -47,7 +49,7 @@ m["confirmed"] = dict(existing_tests_with_change=tests, demo_exit_with_change=in
 m["checks_run"] = checks.split()
 m["detected"] = {c: ("VIOLATION property=%s" % c) in log for c in checks.split()}
 m["check_output_tail"] = log[-3000:]
-m["what_i_ran"] = "tools/seedcheck.sh: apply in scratch worktree, full pytest, demo with/without change; git -C /repo apply, ./check <ID> quick, git -C /repo checkout -- ."
+m["what_i_ran"] = "tools/seedcheck.sh: apply in scratch worktree, full pytest (must pass), demo with change (must fail) / pristine (must pass); then ./check <ID> quick with VERIF_REPO pointing at the worktree with the change applied; worktree restored afterwards"
 json.dump(m, open(dst, "w"), indent=1)
 print("detected:", m["detected"])
 PY
